@@ -23,7 +23,8 @@ import (
 	"pgregory.net/rapid"
 )
 
-var c15Parsers = []string{"node", "pred", "lit", "litb", "obj", "triple"}
+// "litb", "objb", "tripleb": the same parsers handed a bounded literal builder (texts and blobs of at most 3 bytes)
+var c15Parsers = []string{"node", "pred", "lit", "litb", "obj", "objb", "triple", "tripleb"}
 
 type c15Case struct {
 	Parser string `json:"parser"`
@@ -48,8 +49,12 @@ func c15Parse(parser, s string) (v interface{}, err error, panicked interface{})
 		v, err = literal.NewBoundedBuilder(3).Parse(s)
 	case "obj":
 		v, err = triple.ParseObject(s, literal.DefaultBuilder())
+	case "objb":
+		v, err = triple.ParseObject(s, literal.NewBoundedBuilder(3))
 	case "triple":
 		v, err = triple.Parse(s, literal.DefaultBuilder())
+	case "tripleb":
+		v, err = triple.Parse(s, literal.NewBoundedBuilder(3))
 	default:
 		panic("unknown parser " + parser)
 	}
@@ -201,7 +206,7 @@ func genC15(t *rapid.T) c15Case {
 		case "lit", "litb":
 			l, _ := gen.Lit(true).Draw(t, "l").Build()
 			base = l.String()
-		case "obj":
+		case "obj", "objb":
 			o, _ := gen.Obj(true).Draw(t, "o").Build()
 			base = o.String()
 		default:
